@@ -64,6 +64,9 @@ Tolerances: every compared quantity is a signed sum of at most ~30 copula values
 S = max over the non-straddling coordinates of max(|U(a_i)|, |U(b_i)|) (a Levy copula is bounded by each argument), so
 re-association differences are a few ulps of S: |x-y| <= 1e-12 S + 1e-9 max(|x|,|y|); non-negativity slack 1e-13 S;
 partition sums (up to 121 terms) 1e-11 S.
+Density: rtol 1e-8 (nested quadrature) + 1e-12 min_i max(|U_i(a_i)|,|U_i(b_i)|) (the four copula values of an off-axis
+rectangle are bounded by every argument; far-tail rectangles of a strongly dependent copula are pure cancellation).
+Inverse: |x' - x| <= 1e-12 + 1e-9 |x|, or U(x') = y to 1e-9 relative + 16 ulps of the margin's total mass (finite activity).
 """
 from __future__ import annotations
 
@@ -614,7 +617,11 @@ def _sub_tails(sh, case):
                 sh.violation(f"C12:inverse:inverse_tail_integral:raises-{type(e).__name__}:side={_side(x)}:activity={act}", f"inverse_tail_integral({i}, U({x})={y}) raised {e!r}", {"i": i, "x": x, "y": y})
                 continue
             sh.outcome(float(xb).hex())
-            if not core.close(xb, x, rtol=1e-9, atol=1e-12):
+            # Where the closed form of a finite-activity margin resolves U only to a few ulps of its total mass (Merton:
+            # differences of normal cdfs; U(-0.4) = -1.5 ulp), U is numerically flat and every point of the flat piece is
+            # an inverse: x is accepted when it is recovered, or when U at the returned point is y up to that resolution.
+            y_atol = 16 * 2.0 ** -52 * abs(ctx.U0(i, +1 if x > 0 else -1)) if ctx.fa[i] else 0.0
+            if not core.close(xb, x, rtol=1e-9, atol=1e-12) and not (xb != 0 and core.close(ctx.U(i, xb), y, rtol=1e-9, atol=y_atol)):
                 sh.violation(f"C12:inverse:inverse_tail_integral:inverse-of-U-differs:side={_side(x)}:activity={act}",
                              f"inverse_tail_integral({i}, U_{i}({x}) = {y}) = {xb}", {"i": i, "x": x, "y": y, "back": xb})
         for y0 in Y_ALPHABET:
@@ -803,7 +810,9 @@ def _sub_density(sh, case):
             continue
         sh.count("evaluations")
         sh.outcome(float(m).hex())
-        if not core.close(m, v, rtol=1e-8, atol=1e-300):
+        # the library's value is a signed sum of four copula values, each bounded by min_i max(|U_i(a_i)|, |U_i(b_i)|)
+        S = min(max(abs(ctx.U(i, lo)), abs(ctx.U(i, hi))) for i, lo, hi in zip(I, a, b))
+        if not core.close(m, v, rtol=1e-8, atol=1e-12 * S):
             sh.violation(f"C12:density:mass:differs-from-integral-of-joint-density:d={d}:{quad_class}",
                          f"mass({_fmt(a, b)}, indices={list(I)}) = {m}, 2-d quadrature of the implied joint density = {v} (+- {err})",
                          {"a": a, "b": b, "I": list(I), "mass": m, "quadrature": v, "error_estimate": err})
